@@ -481,7 +481,8 @@ size_t derTSIZEDec(size_t* val, const octet der[], size_t count, u32 tag)
 	der += t_count, count -= t_count;
 	// декодировать L
 	l_count = derLDec(&len, der, count);
-	if (l_count == SIZE_MAX || len > O_PER_S + 1)
+	if (l_count == SIZE_MAX || len < 1 || len > O_PER_S + 1 ||
+		len > count - l_count)
 		return SIZE_MAX;
 	der += l_count, count -= l_count;
 	// декодировать V
